@@ -31,6 +31,7 @@ def run(rep, prog, tier):
 
     check_derive_key(rep, prog)
     families.check_algorithm_ids(rep, prog, 'C12.2')
+    s2kshape.check_digest_sizes(rep, prog, 'C12.2')
     # C12.3
     s2kshape.check_count(rep, prog, 'C12.3')
     # C12.4
@@ -247,6 +248,22 @@ class World(object):
         n_gt = sum(1 for e in live if e['%s.count' % self.me] > e['__L__'])
         return 'count arm' if n_gt == len(live) else ('floor arm' if n_gt == 0 else 'both arms')
 
+    def sizes_for(self, facts):
+        """The key / digest size samples that agree with every decision of the path that compares known size quantities."""
+        live = []
+        for k, d, env in self.sizes:
+            def atom(a, _env=env):
+                if a[0] != 'cmp':
+                    return None
+                try:
+                    l, r = self.value(a[2], _env), self.value(a[3], _env)
+                except (s2kshape._NoFold, SyntaxError):
+                    return None
+                return {'==': l == r, '!=': l != r, '<': l < r, '<=': l <= r, '>': l > r, '>=': l >= r}.get(a[1])
+            if all(guards.eval_skel(sk, atom) in (None, v) for (_t, v, sk) in facts if sk is not None):
+                live.append((k, d, env))
+        return live
+
     def want_count(self, env):
         c, L = env['%s.count' % self.me], env['__L__']
         return max(c, L) if self.iterated else L
@@ -280,10 +297,35 @@ def check_shape(rep, fi, s, scen, world):
     else:
         rep.ok(R1, c, 'truncated to key_size // 8', scenario=scen)
     inner = sl[1]
-    if len(inner) != 1 or inner[0][0] != 'EACH':
+    single = False
+    if len(inner) == 1 and inner[0][0] == 'HASH':
+        # one digest, no loop: this is the loop's value exactly when one context is needed.  It is accepted on a path whose own
+        # decisions (e.g. `ctx == 1`) admit only key / digest sizes with ceil(key bits / digest bits) == 1 - evaluated, not matched
+        live = world.sizes_for(s.facts)
+        single = bool(live) and len(live) < len(world.sizes) and all(-((-k) // (d * 8)) == 1 for k, d, _e in live)
+    if single:
+        rep.ok(R2, c, 'single context on a path that admits only sizes needing one context', scenario=scen)
+        var, coll, body = None, None, inner
+    elif len(inner) != 1 or inner[0][0] != 'EACH':
         return bad('digests are not produced by one loop over the contexts')
-    each = inner[0]
-    var, coll, body = each[1], each[2], each[3]
+    else:
+        each = inner[0]
+        var, coll, body = each[1], each[2], each[3]
+    if not single:
+        ok_ctx = _check_ctx(rep, fi, scen, world, coll, bad)
+    if len(body) != 1 or body[0][0] != 'HASH':
+        return bad('loop body is not one digest per context (joined in context order)')
+    h = body[0]
+    rep.check(h[1] in world.halg_texts, R1, c, '%s: hash algorithm %s' % (scen, h[1]), 'contexts use the specifier\'s hash algorithm',
+              where=fi.where, expected='self.halg', found=h[1], scenario=scen)
+    hi = merge_consts(h[2])
+    if single:
+        hi = [('REP', [('C', b'\x00')], None)] + hi        # context 0 is preloaded with no octets
+    return _check_stream(rep, fi, s, scen, world, var, hi, bad, found)
+
+
+def _check_ctx(rep, fi, scen, world, coll, bad):
+    c = 'String2Key.derive_key'
     # C12.2 context count: range(N) / range(0, N) with N == ceil(key bits / digest bits) by value
     ok_ctx = False
     mrev = re.match(r'^reversed\((.*)\)$', coll)
@@ -302,12 +344,12 @@ def check_shape(rep, fi, s, scen, world):
     rep.check(ok_ctx, R2, c, '%s: contexts %s' % (scen, coll),
               'the number of hash contexts must be ceil(key bits / digest bits), numbered from 0', where=fi.where,
               expected='range(0, ceil(key_size / (digest_size * 8)))', found=coll, scenario=scen)
-    if len(body) != 1 or body[0][0] != 'HASH':
-        return bad('loop body is not one digest per context (joined in context order)')
-    h = body[0]
-    rep.check(h[1] in world.halg_texts, R1, c, '%s: hash algorithm %s' % (scen, h[1]), 'contexts use the specifier\'s hash algorithm',
-              where=fi.where, expected='self.halg', found=h[1], scenario=scen)
-    hi = merge_consts(h[2])
+    return ok_ctx
+
+
+def _check_stream(rep, fi, s, scen, world, var, hi, bad, found):
+    c = 'String2Key.derive_key'
+    UNIT = world.unit
     # preload: REP(00; i)
     if not hi or hi[0][0] != 'REP' or render_items(hi[0][1]) != 'C(00)' or hi[0][2] != var:
         return bad('context %s is not preloaded with %s zero octets: %s' % (var, var, render_items(hi[:1])), 'REP(C(00);%s)' % var)
